@@ -717,6 +717,38 @@ def gen_ipc_aligned(rng, n):
     return out
 
 
+ZERO_CHARGES = [(1.0, 0.0), (0.0, 1.0), (0.0, 0.0), (-1.0, 0.0), (0.0, -0.0), (-0.0, -1.3), (-0.0, -0.0), (2.0, -0.0)]
+
+
+def gen_zero_charge(rng, n):
+    """stratum "zero charge product" for the invertible potentials that take charges (InversePowerPotential and the C
+    1/r bounding potential): the potential vanishes identically, the path never accumulates any budget: the expected
+    result is +inf and the derivative exactly +-0"""
+    out = []
+    for i in range(n):
+        fam = ("ip", "ipc")[i % 2]
+        c1, c2 = ZERO_CHARGES[(i // 2) % len(ZERO_CHARGES)]
+        d = (i // 4) % 3
+        L = rng.choice([1.0, 2.0, 3.7, 0.5, 10.0])
+        geo = (i // 12) % 3        # 0 generic, 1 exactly aligned, 2 one transverse component zero
+        sep = [rng.uniform(-L / 2, L / 2) for _ in range(3)]
+        if geo == 1:
+            sep = [rng.choice([0.0, -0.0]) for _ in range(3)]
+            sep[d] = rng.uniform(0.02, 0.5) * L * rng.choice([1, -1])
+        elif geo == 2:
+            sep[rng.choice([j for j in range(3) if j != d])] = 0.0
+        dE = 10.0 ** rng.uniform(-6, 3)
+        op = {"sep": bits(sep), "dir": d, "speed": f2b(rng.choice(SPEEDS)), "dE": f2b(dE), "c1": f2b(c1),
+              "c2": f2b(c2)}
+        if fam == "ip":
+            op.update({"k": "ip_disp", "p": f2b(rng.choice(IP_POWERS)), "p_int": 0,
+                       "pref": f2b(rng.choice([1.0, -1.0, 2.3]))})
+        else:
+            op.update({"k": "ipc_disp", "pref": f2b(rng.choice([1.5837, 1.0, 2.5])), "L": f2b(L)})
+        out.append({"fam": fam, "op": op, "zero_charge": True})
+    return out
+
+
 # ------------------------------------------------------------------------------------------------
 # case construction: driver op + implementation result -> mirror evaluation + Coq statement
 def fl(op, name):
@@ -1076,6 +1108,15 @@ def oracle_ipc(c, res):
     delta = 16 * ulp_d + Fr(1, 10 ** 9) * L
     if d < -delta:
         return "negative displacement %r (budget = %.6g box traversals)" % (res, float(dE / g))
+    frac = dE / g - n
+    if min(frac, 1 - frac) <= Fr(16, 2 ** 53) * (n + 1):
+        # budget within rounding of a whole number of traversals: floor(budget / gain) in floats may be off by one,
+        # i.e. outside the well-conditioned range of the inversion identity: tolerance of one box length
+        c["near_lap_multiple"] = True
+        if not ((n - 1) * L - delta <= d <= (n + 2) * L + delta):
+            return "displacement %r L is more than one box length away from traversal %d (budget = %.17g " \
+                   "traversals)" % (float(d / L), n, float(dE / g))
+        return None
     if not (n * L - delta <= d <= (n + 1) * L + delta):
         return "displacement %r L is not within traversal %d..%d of the box (budget = %.9g traversals)" % (
             float(d / L), n, n + 1, float(dE / g))
@@ -1317,12 +1358,20 @@ def run(ctx, cases_override=None):
         cases = (gen_ip(rng, int(N * 0.3)) + gen_mh(rng, int(N * 0.27), "lj") + gen_mh(rng, int(N * 0.2), "dep")
                  + gen_hs(rng, int(N * 0.08)) + gen_hs(rng, int(N * 0.04), "hd") + gen_cb(rng, int(N * 0.03))
                  + gen_ipc(rng, int(N * 0.08)) + gen_ipc_laps(rng, ctx.n(2, 12))
-                 + gen_ipc_aligned(rng, ctx.n(48, 480)))
+                 + gen_ipc_aligned(rng, ctx.n(48, 480)) + gen_zero_charge(rng, ctx.n(72, 720)))
         tot = gen_totality(rng, ctx.n(3000, 60000))
         prb = probes()
     allc = cases + tot + prb
     t0 = time.time()
-    res = run_ops(ctx, [c["op"] for c in allc])
+    zc = [c for c in cases if c.get("zero_charge")]
+    zc_ops = []
+    for c in zc:
+        o = dict(c["op"])
+        o["k"] = c["fam"] + "_der"
+        zc_ops.append(o)
+    res = run_ops(ctx, [c["op"] for c in allc] + zc_ops)
+    zc_res = res[len(allc):]
+    res = res[:len(allc)]
     ctx.notes.append("driver round 1: %d ops in %.1fs (after %.1fs setup)" % (len(allc), time.time() - t0, t0 - ctx.t0))
     nC = len(cases)
     viol = []       # (case, result, message)
@@ -1351,6 +1400,15 @@ def run(ctx, cases_override=None):
                 known_hits.setdefault(fid, []).append((c, r))
         elif c.get("tag"):
             ctx.notes.append("probe %s no longer fails: %s -> %r" % (c["tag"], json.dumps(c["op"]), v))
+        elif c.get("zero_charge") and v != INF:
+            viol.append((c, r, "vanishing charge product: the potential is identically zero and the budget is never "
+                         "reached, but displacement returned %r instead of inf" % v))
+    for c, r in zip(zc, zc_res):
+        if r and r[0] == "EXC":
+            x, q = xq(sepv(c["op"]), c["op"]["dir"])
+            viol.append((c, r, "vanishing charge product: derivative raised %s: %s" % (r[1], r[2])))
+        elif b2f(r[0]) != 0.0:
+            viol.append((c, r, "vanishing charge product: derivative is %r, not +-0" % b2f(r[0])))
     for fid in sorted(known_hits):
         c, r = known_hits[fid][0]
         op = c["op"]
@@ -1365,6 +1423,10 @@ def run(ctx, cases_override=None):
         v = outcome(c, r)
         if v is None or v != v:
             skipped["impl_failed"] += 1
+            continue
+        if c["fam"] == "ipc" and c.get("zero_charge"):
+            # the real model of the C routine divides by the (zero) gain per lap; expected value +inf is checked directly
+            skipped["ipc_zero_charge_oracle_only"] = skipped.get("ipc_zero_charge_oracle_only", 0) + 1
             continue
         if c["fam"] == "ipc" and xq(sepv(c["op"]), c["op"]["dir"])[1] == 0:
             # exactly aligned units: U(0) is infinite, which the real model cannot express (x / 0 = 0 in Coq);
@@ -1408,6 +1470,8 @@ def run(ctx, cases_override=None):
                 viol.append((c, r, m))
             continue
         c.setdefault("delta", 1e-9)
+        if c["fam"] == "ipc" and c.get("zero_charge"):
+            continue
         if c["fam"] == "ipc":
             op = c["op"]
             x, q = xq(sepv(op), op["dir"])
@@ -1431,7 +1495,7 @@ def run(ctx, cases_override=None):
                 return sorted(pts)
             c["pts_fn"] = pts_fn
             m = oracle_ipc(c, v)
-            if not m and c.get("laps_exact", 10 ** 9) <= 20:
+            if not m and c.get("laps_exact", 10 ** 9) <= 20 and not c.get("near_lap_multiple"):
                 # few laps: additionally the plain positive variation over the whole path
                 m = oracle_eplus(c, v, lambda pts, kc=kc, x=x, qf=qf, L=L: [ipc_energy(kc, x, qf, L, s) for s in pts])
             if m:
@@ -1513,6 +1577,8 @@ def run(ctx, cases_override=None):
         "probes": len(prb),
         "ipc_aligned_strata": {"exactly_aligned_oracle_only": sum(1 for c in cases if c.get("stratum") == "aligned"),
                                "one_transverse_component_zero": sum(1 for c in cases if c.get("stratum") == "onezero")},
+        "zero_charge_product_cases": len(zc),
+        "ipc_budget_within_rounding_of_lap_multiple": sum(1 for c in cases if c.get("near_lap_multiple")),
         "ipc_lap_strata": {str(t): sum(1 for c in cases if c.get("lap_target") == t) for t in LAP_TARGETS},
         "traces_validated_against_impl": nproved,
         "case_files": nfiles, "case_files_ok": nok,
